@@ -36,7 +36,7 @@ theorem protoRepl_none (cfg : Cfg) (env : Env) (ci : ClientInfo) (p : Bytes) :
     rw [if_neg hc]
     rcases searchNext_sound p with ⟨st, hst, h1, hi⟩ | ⟨st, n, id, h1, hid⟩
     · simp only [h1, if_true]
-      rcases searchNextEnd_sound p st hst hi with h2 | ⟨id, st', h2, hid⟩
+      rcases searchNextEnd_sound p st hst hi with ⟨st', h2⟩ | ⟨id, st', h2, hid⟩
       · right
         simp only [h2, if_true, dnsFallback]
         cases hm : dnsParse p with
